@@ -74,7 +74,7 @@ namespace
         {
             const std::string l{n.label()};
             if (l.rfind("dyn_sub_", 0) == 0) { base = std::to_string(k2lbl(std::stoi(l.substr(8)))); }
-            else { base = "#" + l; }
+            else { base = "#" + l + ":" + std::to_string(n.node_index()); }
         }
         return path_of(n.graph()) + base;
     }
